@@ -92,7 +92,10 @@ fn gen_stmt(r: &mut Rng) -> J {
     let p = *r.pick(VARS);
     let lit = |v: J| json!({"k":"lit","v":v});
     let sa = json!({"t":"str","cs":[12]});
-    let e = match r.below(38) {
+    let e = match r.below(41) {
+        38 => call(lam(vec![], asg(n, num(4))), vec![]),
+        39 => call(lam(vec![], add(asg(n, num(4)), id(m))), vec![]),
+        40 => call(json!({"k":"dot","e":{"k":"rec","es":[{"m":"static","key":[12],"e":lam(vec![], asg(n, num(0)))}]},"f":[12]}), vec![]),
         36 => asg(n, call(id("max"), vec![asg(m, num(3)), num(1)])),
         37 => asg(n, call(lam(vec!["x"], id("x")), vec![asg(if r.chance(1, 2) { n } else { m }, num(3))])),
         32 => dob(vec![], asg(n, num(9))),
